@@ -954,7 +954,7 @@ def run(ctx):
     for ul, kind, mat_k in itertools.product(
             ("brownian", "heston"), market.OPTION_KINDS if ctx.thorough else ("european", "lookback"),
             (max(1, T - 3), T + 1)):
-        w = {"ul": ul, "kind": kind, "call": True, "T": T, "As": A if ul == "brownian" or ctx.thorough else As,
+        w = {"ul": ul, "kind": kind, "call": True, "T": T, "As": A if ctx.thorough else As,
              "Av": Av["variance"] if ul == "heston" else None, "dtype": "float64", "hedge": "default",
              "cost": 1 / 128, "mat_k": mat_k}
         fblocks.append({"world": w, "features": feature_specs(w["As"], None)})
@@ -965,7 +965,7 @@ def run(ctx):
             if hw.model_ok(m, w) and not m.get("view") and m["model"] in ("linear", "bs", "mlp"):
                 bblocks.append({"world": w, "model": m})
     for ul, kind in itertools.product(("brownian", "heston"), ("lookback", "european")):
-        w = {"ul": ul, "kind": kind, "call": True, "T": T, "As": A if ul == "brownian" or ctx.thorough else As,
+        w = {"ul": ul, "kind": kind, "call": True, "T": T, "As": A if ctx.thorough else As,
              "Av": Av["variance"] if ul == "heston" else None, "dtype": "float64", "hedge": "ul+listed_short",
              "cost": 1 / 128}
         for m in loop_models(2):
